@@ -9,6 +9,12 @@ PROP = {
         "GunYu.Props.C08.tmp_snapshot_not_offered",
         "GunYu.Props.C08.snapshot_committed_only_when_complete",
         "GunYu.Props.C08.crash_snapshot_complete",
+        "GunYu.Props.C08.ghost_matches_index",
+        "GunYu.Props.C08.crash_snapshot_true",
+        "GunYu.Props.C08.reopen_cache_wf",
+        "GunYu.Props.C08.reopened_cache_wf",
+        "GunYu.Props.C08.reopened_cache_holds",
+        "GunYu.Props.C08.reopened_cache_ok",
         "GunYu.Props.C08.script_ops_true",
         "GunYu.Props.C08.crash_bytes_true",
         "GunYu.Props.C08.reopen_bytes_true",
@@ -71,13 +77,18 @@ PROP = {
         "that the real writers issue exactly these file operations is the syscall-level correspondence, not a theorem",
         "the model tears appends only; a torn 16-byte header rewrite is not a model crash image (harmless for truth: the header is unused "
         "without verification and refused with it) — the harness does tear header writes (every multi-byte write) and re-opens them",
-        "snapshot CONTENT has no theorem (FsTrue constrains stream files): crash_snapshot_complete proves the offered file has the announced "
-        "length; that its bytes are the bytes received is checked by the monitor on every image (snapshot-bytes-wrong, read through RdbReader)",
+        "snapshot content: crash_snapshot_true proves that an offered snapshot file holds exactly the bytes the ghost `received` records for that announcement "
+        "(every byte handed to the snapshot writer since it was created, computed from the operation list alone; ghost_matches_index ties it to the index), complete and "
+        "in order, for every script / crash instant / torn length; the monitor snapshot-bytes-wrong is its tie to the real writers. NOT said: which source snapshot these "
+        "bytes are (C06's World.snap) — CacheOK only needs the offset the file is filed under",
         "stream-side faults: short writes are modelled and injected; a failing header rewrite at close, a failing open at rotation and failing "
         "os.Remove calls are NOT injected (review mutation 8 — close observer called or not after a failed header write — stays uncaught; "
         "its effect is on the runtime index, not on what a re-opened cache serves)",
         "the files initDataSet unlinks at re-opening (Reopened.removed in the model) are not compared with the real unlinks (property-neutral: "
-        "a surviving cut file is cut again at the next re-opening); no bridge lemma to C06's CacheOK/CacheWF",
+        "a surviving cut file is cut again at the next re-opening)",
+        "bridge to C06 (reopen_cache_wf for ANY image, reopened_cache_wf / reopened_cache_ok for every script and crash instant; definitions imported from Model/Psync.lean): "
+        "the re-opened cache satisfies C06's CacheWF and CacheOK. Remaining hypotheses: offsets fit int64 (the model's offsets are naturals), the label id is a real id, and for "
+        "CacheOK the callers' SrcOk (the chunks appended are history id's bytes). C06's theorems are not re-stated here (Props/C06 is not imported: a broken C06 must not break C08)",
         "a committed snapshot NAME with fewer bytes than announced (copy, file-system repair, power loss after an unsynced rename) is outside the quantifier "
         "(process death + alterations of closed segments): initDataSet trusts the name and does not compare info.Size(); such an image is not generated",
         "the literal syscall list is compared with the model's scriptOps: a rewrite that coalesces or splits writes gives a DIFF (tie failure), not a violation; "
@@ -94,15 +105,15 @@ MANIFEST = {
             "cover the reported range, older segments behind a gap are discarded together with the snapshot, an offered snapshot is a committed "
             "file aligned with the first segment (temporary files never offered). UNCONDITIONAL over all writer scripts respecting the callers' "
             "protocol, all crash instants and torn lengths: an offered snapshot holds exactly the announced number of bytes "
-            "(crash_snapshot_complete) and every byte a reader of the re-opened cache delivers is the source's byte at that offset "
+            "(crash_snapshot_complete) and exactly the bytes the snapshot writer received, in order (crash_snapshot_true, ghost `received`), and every byte a reader of the re-opened cache delivers is the source's byte at that offset "
             "(script_ops_true + crash_bytes_true; hypothesis: the chunks appended are the source's bytes). Checksum verification: no byte at or "
             "beyond a failing segment is delivered wherever it is in the chain, an altered recorded CRC or size is refused, altered data is "
             "accepted only if length is equal and CRC64 collides. Tie: the real writers run under strace (incl. production-size segments and "
             "snapshots, short writes, write faults on the snapshot side); the syscall list is compared with the model and every prefix / torn "
             "write / alteration / random subset is re-opened by the real code; resumed writers, collector, second crash, id change and DelRunId "
-            "are monitored on the real code.",
+            "are monitored on the real code. Bridge: the re-opened cache satisfies C06's CacheWF / CacheOK (reopened_cache_wf, reopened_cache_ok), so C06's theorems apply to whatever survives a crash.",
     "note": "trusted: Lean kernel, strace + trace parser, process-death (not power-loss) file-system semantics, name classification in the driver; "
-            "partial: real-writers-issue-scriptOps is correspondence not theorem, snapshot content by monitor only, header-rewrite/rotation-open/"
+            "partial: real-writers-issue-scriptOps is correspondence not theorem, header-rewrite/rotation-open/"
             "remove faults not injected, CRC burst detection not re-proved. D15 fixed (9091dc9).",
     "technique": "Lean 4 proof (structural induction over arbitrary directory images, operation lists and writer scripts with a file-level invariant) + "
                  "syscall-trace correspondence (strace) with exhaustive crash-prefix replay",
